@@ -79,6 +79,7 @@ std::string runHistory(const std::vector<Msg> &h, vx::Summary *sum, bool *bad)
         if (ok && m.attribute(QStringLiteral("seq_number")).toInt() != n) { ok = false; why = "message carries seq_number " + m.attribute(QStringLiteral("seq_number")).toString().toStdString() + ", expected " + std::to_string(n); }
         if (sum && i + 1 == h.size()) {
             sum->transitions++;
+            { std::string d = hshow(h) + "=>"; for (auto &x : w.log) d += std::to_string(x.sink) + ":" + std::to_string(x.seq) + ";"; d += m.attribute(QStringLiteral("seq_number")).toString().toStdString(); sum->digestAdd(d); }
             sum->outcomes.insert(std::string(pass ? "pass" : "drop") + (mm.pipe ? "2" : "1"));
             // level filter: all 5 thresholds on this message (stateless; 25 pairs covered at depth 1 already)
             for (int th = 0; th < 5; th++) {
@@ -122,6 +123,7 @@ void regexDump(const char *path, int maxTok, int maxLen, vx::Summary &sum)
                 LogMessage m(QtDebugMsg, ctx, s);
                 bool verdict = flt.filter(m);
                 line += verdict ? '1' : '0';
+                if (&s == &strs.back()) sum.digestAdd(line);
                 sum.counters["regex_cases"]++;
                 // "matches the message text": the verdict may not depend on what a formatter upstream produced, nor on attributes
                 const QString deco[3] = { QStringLiteral("ab\nab") + s + QStringLiteral("ba"), QStringLiteral(""), QStringLiteral("zz") };
